@@ -1,7 +1,7 @@
 """helpers shared by the per-property checks"""
 import os
 from irlib import compile_ir, compile_many, AnalysisBroken, VERIF
-from absint import Interp
+from absint import Interp, ext_strmcrc8
 from contracts import ContractRun, StructSpec, FnSpec, summarize
 
 WIT = os.path.join(VERIF, 'witness')
@@ -158,3 +158,9 @@ def sig_suffix(f):
     """short stable disambiguator for overloads: parameter type list"""
     ps = [p['ty']['s'] for p in f.params if p['name'] != 'this']
     return '(' + ','.join(ps) + ')' + (' const' if f.name.startswith('_ZNK') else '')
+
+
+# igris_strmcrc8 is summarised (one byte read+written at *crc) wherever the CRC
+# value itself is irrelevant; its arithmetic is the subject of C17
+CRC_EXT = {'igris_strmcrc8': ext_strmcrc8, '_ZL14igris_strmcrc8Phc': ext_strmcrc8}
+CRC_OPAQUE = set(CRC_EXT)
